@@ -3,6 +3,7 @@ package props
 import (
 	"fmt"
 	"go/ast"
+	"go/token"
 	"go/types"
 	"sort"
 	"strings"
@@ -70,7 +71,7 @@ func entityMustCall(r *core.Run) {
 		if !ok || !strings.HasPrefix(selRecorded(pk.TypesInfo, s), "accept") {
 			continue
 		}
-		if core.ExprStr(ifs.Cond) == "err != nil" && len(ifs.Body.List) == 1 {
+		if initErrNotNil(pk.TypesInfo, ifs) && len(ifs.Body.List) == 1 {
 			if _, isRet := ifs.Body.List[0].(*ast.ReturnStmt); isRet {
 				order[selRecorded(pk.TypesInfo, s)] = (i + 1) * 1000
 			}
@@ -105,7 +106,7 @@ func entityMustCall(r *core.Run) {
 		// the body calls the step and returns on error, with nothing that could skip it
 		bodyOK := false
 		if len(rs.Body.List) == 1 {
-			if ifs, ok := rs.Body.List[0].(*ast.IfStmt); ok && ifs.Init != nil && core.ExprStr(ifs.Cond) == "err != nil" && len(ifs.Body.List) == 1 {
+			if ifs, ok := rs.Body.List[0].(*ast.IfStmt); ok && ifs.Init != nil && initErrNotNil(pk.TypesInfo, ifs) && len(ifs.Body.List) == 1 {
 				if as, ok := ifs.Init.(*ast.AssignStmt); ok && len(as.Rhs) == 1 {
 					if c, ok := as.Rhs[0].(*ast.CallExpr); ok && core.ExprStr(c.Fun) == stepVar {
 						if _, isRet := ifs.Body.List[0].(*ast.ReturnStmt); isRet {
@@ -178,27 +179,28 @@ func entityAnnotations(r *core.Run, info *types.Info) {
 				k := core.ExprStr(kv.Key)
 				switch {
 				case k == "Entity" && (tn == "EntityObject" || strings.HasPrefix(tn, "ServiceOptions_State")):
-					o := r.Add("R-CONST/entity", fmt.Sprintf("sourcewalk.entityNode.%s | %s.Entity", fd.Name.Name, tn), kv.Pos(), tn+".Entity ← "+core.ExprStr(kv.Value))
-					if core.ExprStr(kv.Value) == "ent.name" || aliasOf(info, fd, kv.Value) == "ent.name" {
+					o := r.Add("R-CONST/entity", fmt.Sprintf("sourcewalk.%s | %s.Entity", core.FuncName(fd), tn), kv.Pos(), tn+".Entity ← "+core.ExprStr(kv.Value))
+					if recvMember(info, fd, kv.Value) == "name" {
 						o.Auto("ent.name")
 					} else {
 						o.Fail("entity annotation is %s, the other parts use ent.name: consumers group parts by this string", core.ExprStr(kv.Value))
 					}
 				case k == "EntityName" && strings.Contains(tn, "ServiceConfig"):
-					o := r.Add("R-CONST/entity", fmt.Sprintf("sourcewalk.entityNode.%s | %s.EntityName", fd.Name.Name, tn), kv.Pos(), tn+".EntityName ← "+core.ExprStr(kv.Value))
-					if strings.Contains(core.ExprStr(kv.Value), "ent.name") || strings.Contains(core.ExprStr(kv.Value), "ent.fullName()") {
+					o := r.Add("R-CONST/entity", fmt.Sprintf("sourcewalk.%s | %s.EntityName", core.FuncName(fd), tn), kv.Pos(), tn+".EntityName ← "+core.ExprStr(kv.Value))
+					if mentionsRecvMember(info, fd, kv.Value, "name", "fullName") {
 						o.Auto("%s", core.ExprStr(kv.Value))
 					} else {
 						o.Fail("topic entity name is %s", core.ExprStr(kv.Value))
 					}
 				case k == "Part" && tn == "EntityObject":
-					o := r.Add("R-CONST/entity", fmt.Sprintf("sourcewalk.entityNode.%s | EntityObject.Part", fd.Name.Name), kv.Pos(), "part constant "+core.ExprStr(kv.Value))
-					w := wantPart[fd.Name.Name]
-					seenPart[fd.Name.Name] = true
+					o := r.Add("R-CONST/entity", fmt.Sprintf("sourcewalk.%s | EntityObject.Part", core.FuncName(fd)), kv.Pos(), "part constant "+core.ExprStr(kv.Value))
+					method := strings.TrimPrefix(core.FuncName(fd), "entityNode.") // the recorded name
+					w := wantPart[method]
+					seenPart[method] = true
 					if w != "" && strings.HasSuffix(core.ExprStr(kv.Value), w) {
 						o.Auto("%s", w)
 					} else {
-						o.Fail("%s writes part %s, expected %s", fd.Name.Name, core.ExprStr(kv.Value), w)
+						o.Fail("%s writes part %s, expected %s", method, core.ExprStr(kv.Value), w)
 					}
 				}
 			}
@@ -248,7 +250,7 @@ func entityNames(r *core.Run, info *types.Info) {
 				return true
 			}
 			used[suffix] = true
-			o := r.Add("R-CONST/entitynames", fmt.Sprintf("sourcewalk.entityNode.%s | component %q", fd.Name.Name, suffix), c.Pos(), "component name suffix "+suffix)
+			o := r.Add("R-CONST/entitynames", fmt.Sprintf("sourcewalk.%s | component %q", core.FuncName(fd), suffix), c.Pos(), "component name suffix "+suffix)
 			if allowed[suffix] {
 				o.Auto("documented component")
 			} else if service[suffix] {
@@ -316,7 +318,12 @@ func entityEvents(r *core.Run, info *types.Info) {
 		case *ast.AssignStmt:
 			if len(x.Rhs) == 1 {
 				if c, ok := x.Rhs[0].(*ast.CallExpr); ok && core.CalleeName(info, c) == "builtin.append" {
-					appends[core.ExprStr(x.Lhs[0])]++
+					// keyed by what is appended to, not by what the variable is called
+					if sel, ok := core.Unparen(x.Lhs[0]).(*ast.SelectorExpr); ok {
+						appends["."+sel.Sel.Name]++
+					} else {
+						appends[core.TypeStr(info.TypeOf(x.Lhs[0]))]++
+					}
 				}
 			}
 		case *ast.KeyValueExpr:
@@ -336,7 +343,13 @@ func entityEvents(r *core.Run, info *types.Info) {
 		}
 		return true
 	})
-	if appends["eventObjects"] == 1 && appends["eventOneof.Properties"] == 1 && numOK && nameOK {
+	once := 0
+	for _, n := range appends {
+		if n == 1 {
+			once++
+		}
+	}
+	if len(appends) == 2 && once == 2 && appends[".Properties"] == 1 && numOK && nameOK {
 		o.Auto("one nested schema and one property appended per event; number %s+1; name lowerCamel(event)", core.ExprStr(loop.Key))
 	} else {
 		o.Fail("appends=%v number=%v name=%v: events and oneof options are no longer built one-to-one", appends, numOK, nameOK)
@@ -396,6 +409,127 @@ func entityPathKeys(r *core.Run, info *types.Info) {
 
 // aliasOf: e is a local identifier defined exactly once as `x := <expr>`;
 // returns the printed <expr>.
+// initErrNotNil: `if v := …; v != nil` — the condition tests the variable the
+// initialiser defines against nil.
+func initErrNotNil(info *types.Info, ifs *ast.IfStmt) bool {
+	as, ok := ifs.Init.(*ast.AssignStmt)
+	if !ok || len(as.Lhs) == 0 {
+		return false
+	}
+	b, ok := core.Unparen(ifs.Cond).(*ast.BinaryExpr)
+	if !ok || b.Op != token.NEQ {
+		return false
+	}
+	x, y := b.X, b.Y
+	if core.IsNilIdent(info, x) {
+		x, y = y, x
+	}
+	if !core.IsNilIdent(info, y) {
+		return false
+	}
+	id, ok := core.Unparen(x).(*ast.Ident)
+	if !ok {
+		return false
+	}
+	for _, l := range as.Lhs {
+		if li, ok := l.(*ast.Ident); ok && info.Defs[li] != nil && info.Defs[li] == info.Uses[id] {
+			return true
+		}
+	}
+	return false
+}
+
+// recvMember: e is `<receiver>.<member>` (a field, or a method called without
+// arguments), directly or through a local defined once from it; returns the
+// member's name, else "".
+func recvMember(info *types.Info, fd *ast.FuncDecl, e ast.Expr) string {
+	if fd.Recv == nil || len(fd.Recv.List) != 1 || len(fd.Recv.List[0].Names) != 1 {
+		return ""
+	}
+	recv := info.Defs[fd.Recv.List[0].Names[0]]
+	for depth := 0; depth < 3; depth++ {
+		e = core.Unparen(e)
+		if c, ok := e.(*ast.CallExpr); ok && len(c.Args) == 0 {
+			e = c.Fun
+		}
+		switch x := e.(type) {
+		case *ast.SelectorExpr:
+			if id, ok := core.Unparen(x.X).(*ast.Ident); ok && info.Uses[id] == recv {
+				if fn, ok := info.Uses[x.Sel].(*types.Func); ok {
+					return core.RecordedName(fn)
+				}
+				return x.Sel.Name
+			}
+			return ""
+		case *ast.Ident:
+			obj := info.Uses[x]
+			var def ast.Expr
+			n := 0
+			ast.Inspect(fd.Body, func(nd ast.Node) bool {
+				if as, ok := nd.(*ast.AssignStmt); ok && len(as.Lhs) == len(as.Rhs) {
+					for i, l := range as.Lhs {
+						if li, ok := l.(*ast.Ident); ok && obj != nil && (info.Defs[li] == obj || info.Uses[li] == obj) {
+							n++
+							def = as.Rhs[i]
+						}
+					}
+				}
+				return true
+			})
+			if n != 1 {
+				return ""
+			}
+			e = def
+		default:
+			return ""
+		}
+	}
+	return ""
+}
+
+// mentionsRecvMember: some sub-expression of e is one of the receiver's named members.
+func mentionsRecvMember(info *types.Info, fd *ast.FuncDecl, e ast.Expr, members ...string) bool {
+	found := false
+	ast.Inspect(e, func(n ast.Node) bool {
+		if x, ok := n.(ast.Expr); ok {
+			m := recvMember(info, fd, x)
+			for _, w := range members {
+				if m == w {
+					found = true
+				}
+			}
+		}
+		return !found
+	})
+	return found
+}
+
+// aliasExprOf: the single defining expression of the local e names, or nil.
+func aliasExprOf(info *types.Info, fd *ast.FuncDecl, e ast.Expr) ast.Expr {
+	id, ok := core.Unparen(e).(*ast.Ident)
+	if !ok {
+		return nil
+	}
+	obj := info.Uses[id]
+	var src ast.Expr
+	n := 0
+	ast.Inspect(fd.Body, func(nd ast.Node) bool {
+		if as, ok := nd.(*ast.AssignStmt); ok && len(as.Lhs) == len(as.Rhs) {
+			for i, l := range as.Lhs {
+				if li, ok := l.(*ast.Ident); ok && obj != nil && (info.Defs[li] == obj || info.Uses[li] == obj) {
+					n++
+					src = as.Rhs[i]
+				}
+			}
+		}
+		return true
+	})
+	if n == 1 {
+		return src
+	}
+	return nil
+}
+
 func aliasOf(info *types.Info, fd *ast.FuncDecl, e ast.Expr) string {
 	id, ok := core.Unparen(e).(*ast.Ident)
 	if !ok {
